@@ -94,6 +94,147 @@ Proof.
   destruct (String.eqb k k'); reflexivity.
 Qed.
 
+(* ---------------------------------------------------------------- values as nested lists *)
+Lemma list_eqb_Z_eq x y : list_eqb Z.eqb x y = true -> x = y.
+Proof.
+  revert y. induction x as [|a x IH]; destruct y as [|b y]; simpl; try discriminate; [reflexivity|].
+  intros H. apply andb_true_iff in H. destruct H as [H1 H2].
+  apply Z.eqb_eq in H1. rewrite (IH y H2). congruence.
+Qed.
+
+Lemma arr_eqb_eq x y : arr_eqb x y = true -> x = y.
+Proof.
+  destruct x, y. unfold arr_eqb. simpl. intros H.
+  apply andb_true_iff in H. destruct H as [H H3]. apply andb_true_iff in H. destruct H as [H1 H2].
+  apply String.eqb_eq in H1. apply list_eqb_Z_eq in H2. apply list_eqb_Z_eq in H3. congruence.
+Qed.
+
+Lemma arr_stable_eq a : arr_stable a = true -> listify_arr a = a /\ String.eqb (a_dt a) unreadable = false.
+Proof.
+  unfold arr_stable. intros H. apply andb_true_iff in H. destruct H as [H1 H2].
+  split; [apply arr_eqb_eq; exact H1 | apply negb_true_iff; exact H2].
+Qed.
+
+Lemma items_stable_eq it : items_stable it = true -> listify_items it = it.
+Proof.
+  induction it as [|[l a] r IH]; simpl; intros H; [reflexivity|].
+  apply andb_true_iff in H. destruct H as [H1 H2].
+  unfold listify_items in *. cbn [map fst snd]. rewrite (IH H2).
+  destruct (arr_stable_eq a H1) as [E _]. rewrite E. reflexivity.
+Qed.
+
+Lemma keyed_stable_eq m : keyed_stable m = true -> listify_keyed m = m.
+Proof.
+  induction m as [|[k it] r IH]; simpl; intros H; [reflexivity|].
+  apply andb_true_iff in H. destruct H as [H1 H2].
+  unfold listify_keyed in *. cbn [map fst snd]. rewrite (IH H2), (items_stable_eq it H1). reflexivity.
+Qed.
+
+Lemma items_stable_readable it :
+  items_stable it = true -> forallb (fun la : string * arr => negb (String.eqb (a_dt (snd la)) unreadable)) it = true.
+Proof.
+  induction it as [|[l a] r IH]; simpl; intros H; [reflexivity|].
+  apply andb_true_iff in H. destruct H as [H1 H2]. rewrite (IH H2).
+  destruct (arr_stable_eq a H1) as [_ E]. rewrite E. reflexivity.
+Qed.
+
+Lemma keyed_stable_readable m : keyed_stable m = true -> keyed_readable m = true.
+Proof.
+  induction m as [|[k it] r IH]; simpl; intros H; [reflexivity|].
+  apply andb_true_iff in H. destruct H as [H1 H2].
+  unfold keyed_readable in *. cbn [forallb snd]. rewrite (IH H2), (items_stable_readable it H1). reflexivity.
+Qed.
+
+Lemma keyed_readable_map_keys f m : keyed_readable (map_keys f m) = keyed_readable m.
+Proof.
+  unfold keyed_readable, map_keys. induction m as [|[k it] r IH]; simpl; [reflexivity|]. rewrite IH. reflexivity.
+Qed.
+
+(* a tree's own flattening already contains every ancestor: DataTree.from_dict has nothing to add *)
+Lemma close_paths_closed m : paths_closed m = true -> close_paths m = m.
+Proof.
+  unfold paths_closed, close_paths. destruct (missing_groups m); [|discriminate].
+  intros _. simpl. apply app_nil_r.
+Qed.
+
+(* ---------------------------------------------------------------- group structure of a tree
+   Whatever the dtypes: every group of the tree (also one without any data variable: coordinates only, attributes
+   only, nothing at all) comes back, under its own path, with every entry it had, the same shapes and the same values. *)
+Lemma listify_items_skeleton it :
+  map (fun la : string * arr => (fst la, a_sh (snd la), a_v (snd la))) (listify_items it) =
+  map (fun la : string * arr => (fst la, a_sh (snd la), a_v (snd la))) it.
+Proof.
+  unfold listify_items. rewrite map_map. apply map_ext. intros [l a]. simpl.
+  unfold listify_arr. destruct (has_zero (a_sh a)); [|reflexivity].
+  destruct (list_eqb Z.eqb (upto_zero (a_sh a)) (a_sh a)); reflexivity.
+Qed.
+
+Lemma keyed_skeleton_listify m : keyed_skeleton (listify_keyed m) = keyed_skeleton m.
+Proof.
+  unfold keyed_skeleton, listify_keyed. rewrite map_map. apply map_ext. intros [k it]. simpl.
+  rewrite listify_items_skeleton. reflexivity.
+Qed.
+
+Lemma listify_map_keys f m : listify_keyed (map_keys f m) = map_keys f (listify_keyed m).
+Proof. unfold listify_keyed, map_keys. rewrite !map_map. reflexivity. Qed.
+
+Lemma map_keys_inv_gen a b (m : keyed) :
+  forallb (fun kv => negb (has_char b (fst kv))) m = true ->
+  map_keys (replace_char b a) (map_keys (replace_char a b) m) = m.
+Proof.
+  induction m as [|[k v] r IH]; intros H; [reflexivity|].
+  cbn [forallb fst] in H. apply andb_true_iff in H. destruct H as [Hk Hr]. specialize (IH Hr).
+  apply negb_true_iff in Hk.
+  unfold map_keys in *. cbn [map fst snd]. rewrite IH, (replace_inv a b k Hk). reflexivity.
+Qed.
+
+Lemma existsb_map_fst {A} (g : string -> bool) (m : list (string * A)) :
+  existsb (fun kv => g (fst kv)) m = existsb g (map fst m).
+Proof. induction m as [|x r IH]; simpl; [reflexivity|]. rewrite IH. reflexivity. Qed.
+
+Lemma missing_groups_keys (m m' : keyed) : map fst m = map fst m' -> missing_groups m = missing_groups m'.
+Proof.
+  intros E. unfold missing_groups. f_equal.
+  assert (F : flat_map (fun kv : string * items => ancestors (fst kv)) m =
+              flat_map (fun kv : string * items => ancestors (fst kv)) m').
+  { rewrite !flat_map_concat_map. f_equal.
+    rewrite <- (map_map fst ancestors m), <- (map_map fst ancestors m'), E. reflexivity. }
+  rewrite F. apply filter_ext. intros a. f_equal.
+  unfold has_key.
+  rewrite (existsb_map_fst (String.eqb a) m), (existsb_map_fst (String.eqb a) m'), E.
+  reflexivity.
+Qed.
+
+Lemma listify_keys m : map fst (listify_keyed m) = map fst m.
+Proof. unfold listify_keyed. rewrite map_map. reflexivity. Qed.
+
+Theorem tree_trip_skeleton a b (m : keyed) :
+  forallb (fun kv => negb (has_char b (fst kv))) m = true -> paths_closed m = true ->
+  keyed_skeleton (tree_trip a b m) = keyed_skeleton m.
+Proof.
+  intros Hn Hc. unfold tree_trip.
+  rewrite listify_map_keys.
+  assert (Hn' : forallb (fun kv : string * items => negb (has_char b (fst kv))) (listify_keyed m) = true).
+  { clear Hc. induction m as [|[k it] r IH]; [reflexivity|]. cbn [forallb fst listify_keyed map] in *.
+    apply andb_true_iff in Hn. destruct Hn as [H1 H2]. simpl. rewrite H1. apply IH; exact H2. }
+  rewrite (map_keys_inv_gen a b _ Hn').
+  assert (Hc' : paths_closed (listify_keyed m) = true).
+  { unfold paths_closed in *. rewrite (missing_groups_keys (listify_keyed m) m (listify_keys m)). exact Hc. }
+  rewrite (close_paths_closed _ Hc'). apply keyed_skeleton_listify.
+Qed.
+
+(* ... and it is exactly what from_dict gets for the processed data *)
+Lemma dec_enc_data_is_tree_trip tb m :
+  m <> [] ->
+  dec tb FData (Some (hash, slash)) (backend_conv (enc tb FData (Some (slash, hash)) (Some (PKeyed m)))) =
+  Some (PKeyed (tree_trip slash hash m)).
+Proof.
+  intros Hne. simpl. unfold tree_trip. unfold apply_esc.
+  destruct (listify_keyed (map_keys (replace_char slash hash) m)) eqn:Q.
+  - unfold listify_keyed, map_keys in Q. destruct m; [contradiction|discriminate].
+  - reflexivity.
+Qed.
+
 (* ---------------------------------------------------------------- per-container payload round-trips *)
 Definition esc_cond (f : field) (ew er : esc) : bool :=
   match f with FData | FScene => esc_is ew slash hash && esc_is er hash slash | _ => true end.
@@ -114,10 +255,11 @@ Proof.
   - apply esc_is_eq; assumption.
 Qed.
 
+(* what from_dict reads back from what to_dict + the backend's Dataset conversion wrote, per container *)
 Lemma dec_enc_dict tb T f ew er o :
   header_ok tb T = true -> esc_cond f ew er = true ->
   wf_shape T f o -> restr_dict f o ->
-  dec tb f er (enc tb f ew o) = o.
+  dec tb f er (backend_conv (enc tb f ew o)) = o.
 Proof.
   intros Hh He Hs Hr.
   destruct (photon_keys tb T Hh) as (K1 & K2 & K3 & K4 & K5).
@@ -126,52 +268,95 @@ Proof.
     destruct f, p; simpl in Hs; try contradiction; simpl.
     + (* photon 2-D *) rewrite K1, String.eqb_refl. reflexivity.
     + (* photon 3-D *) rewrite K3. rewrite K2, String.eqb_refl. rewrite K4, K5.
-      simpl in Hr. rewrite (map_keys_inv m Hr). reflexivity.
+      simpl in Hr. destruct Hr as [Hn Hst]. rewrite (keyed_stable_eq m Hst), (map_keys_inv m Hn). reflexivity.
     + reflexivity. + reflexivity. + reflexivity. + reflexivity.
     + (* data *) simpl in He. apply andb_true_iff in He. destruct He as [E1 E2].
-      apply esc_is_eq in E1. apply esc_is_eq in E2. subst ew er. simpl in Hr.
-      destruct (map_keys (apply_esc (Some (slash, hash))) m) eqn:Q.
-      * apply map_keys_nil_inv in Q. contradiction.
-      * rewrite <- Q. rewrite (map_keys_inv m Hr). reflexivity.
+      apply esc_is_eq in E1. apply esc_is_eq in E2. subst ew er. simpl in Hr. destruct Hr as [Hn Hst].
+      destruct Hs as [Hne Hcl].
+      assert (Q : listify_keyed (map_keys (apply_esc (Some (slash, hash))) m) =
+                  map_keys (apply_esc (Some (slash, hash))) (listify_keyed m)).
+      { unfold listify_keyed, map_keys. rewrite !map_map. reflexivity. }
+      rewrite Q, (keyed_stable_eq m Hst).
+      destruct (map_keys (apply_esc (Some (slash, hash))) m) eqn:Q2.
+      * apply map_keys_nil_inv in Q2. contradiction.
+      * rewrite <- Q2. rewrite (map_keys_inv m Hn), (close_paths_closed m Hcl). reflexivity.
     + reflexivity.
     + (* frame *) destruct idx; [contradiction|reflexivity].
     + (* scene *) simpl in He. apply andb_true_iff in He. destruct He as [E1 E2].
-      apply esc_is_eq in E1. apply esc_is_eq in E2. subst ew er. simpl in Hr.
-      destruct (map_keys (apply_esc (Some (slash, hash))) m) eqn:Q.
-      * apply map_keys_nil_inv in Q. contradiction.
-      * rewrite <- Q. rewrite (map_keys_inv m Hr). reflexivity.
+      apply esc_is_eq in E1. apply esc_is_eq in E2. subst ew er. simpl in Hr. destruct Hr as [Hn Hst].
+      destruct Hs as [Hne Hcl].
+      rewrite (keyed_stable_eq m Hst).
+      assert (Q : listify_keyed (map_keys (apply_esc (Some (slash, hash))) m) =
+                  map_keys (apply_esc (Some (slash, hash))) (listify_keyed m)).
+      { unfold listify_keyed, map_keys. rewrite !map_map. reflexivity. }
+      rewrite Q, (keyed_stable_eq m Hst).
+      destruct (map_keys (apply_esc (Some (slash, hash))) m) eqn:Q2.
+      * apply map_keys_nil_inv in Q2. contradiction.
+      * rewrite <- Q2. rewrite (map_keys_inv m Hn), (close_paths_closed m Hcl). reflexivity.
   - destruct f; simpl; reflexivity.
 Qed.
 
 Lemma file_conv_enc_not_frame tb f ew o :
-  f <> FChargeFrame -> file_conv (enc tb f ew o) = enc tb f ew o.
+  f <> FChargeFrame -> file_conv tb (enc tb f ew o) = backend_conv (enc tb f ew o).
 Proof.
   intros Hf. destruct f; try congruence; destruct o as [[?|?|? ?]|]; reflexivity.
 Qed.
 
 Lemma dec_enc_file tb T f ew er o :
   header_ok tb T = true -> esc_cond f ew er = true ->
-  wf_shape T f o -> restr_file f o ->
-  dec tb f er (file_conv (enc tb f ew o)) = o.
+  wf_shape T f o -> restr_file tb f o ->
+  dec tb f er (file_conv tb (enc tb f ew o)) = o.
 Proof.
   intros Hh He Hs [Hr Hi].
   destruct f;
     try (rewrite file_conv_enc_not_frame by discriminate; eapply dec_enc_dict; eassumption).
   (* the cluster table *)
-  destruct o as [p|]; [|reflexivity].
+  destruct o as [p|]; [|simpl; destruct (t_frame_index_kept tb); reflexivity].
   destruct Hs as [_ Hs]. destruct p; simpl in Hs; try contradiction.
-  simpl. rewrite <- Hi. destruct idx; [contradiction|reflexivity].
+  simpl. destruct Hi as [Hi|Hi].
+  - rewrite Hi. destruct idx; [contradiction|reflexivity].
+  - rewrite <- Hi. destruct (t_frame_index_kept tb); (destruct idx; [contradiction|reflexivity]).
+Qed.
+
+(* nothing that was written is unreadable (Dataset.from_dict does not raise) *)
+Lemma enc_readable_dict tb T f ew o :
+  wf_shape T f o -> restr_dict f o -> dval_readable (backend_conv (enc tb f ew o)) = true.
+Proof.
+  intros Hs Hr. destruct o as [p|].
+  - destruct Hs as [_ Hs].
+    destruct f, p; simpl in Hs; try contradiction; simpl; try reflexivity.
+    + (* photon 3-D *) destruct Hr as [_ Hst].
+      rewrite keyed_readable_map_keys, (keyed_stable_eq m Hst), (keyed_stable_readable m Hst). reflexivity.
+    + (* data *) destruct Hr as [_ Hst].
+      assert (Q : listify_keyed (map_keys (apply_esc ew) m) = map_keys (apply_esc ew) (listify_keyed m)).
+      { unfold listify_keyed, map_keys. rewrite !map_map. reflexivity. }
+      rewrite Q, keyed_readable_map_keys, (keyed_stable_eq m Hst). apply keyed_stable_readable; exact Hst.
+    + (* scene *) destruct Hr as [_ Hst].
+      assert (Q : listify_keyed (map_keys (apply_esc ew) (listify_keyed m)) =
+                  map_keys (apply_esc ew) (listify_keyed (listify_keyed m))).
+      { unfold listify_keyed, map_keys. rewrite !map_map. reflexivity. }
+      rewrite Q, keyed_readable_map_keys, !(keyed_stable_eq m Hst). apply keyed_stable_readable; exact Hst.
+  - destruct f; reflexivity.
+Qed.
+
+Lemma enc_readable_file tb T f ew o :
+  wf_shape T f o -> restr_dict f o -> dval_readable (file_conv tb (enc tb f ew o)) = true.
+Proof.
+  intros Hs Hr. destruct f;
+    try (rewrite file_conv_enc_not_frame by discriminate; eapply enc_readable_dict; eassumption).
+  destruct o as [[?|?|? ?]|]; reflexivity.
 Qed.
 
 (* ---------------------------------------------------------------- the reduction lemma *)
 Theorem codec_sound_gen tb conv (P : dkind -> field -> option payload -> Prop) T fs :
   (forall f ew er o, applicable T f = true -> P T f o -> esc_cond f ew er = true ->
                      dec tb f er (conv (enc tb f ew o)) = o) ->
+  (forall f ew o, P T f o -> dval_readable (conv (enc tb f ew o)) = true) ->
   (forall f o, applicable T f = false -> P T f o -> o = None) ->
   codec_ok tb T fs = true ->
   roundtrip_on (via conv) P tb T fs.
 Proof.
-  intros Hdec Hna Hok d Hk HP.
+  intros Hdec Hread Hna Hok d Hk HP.
   unfold codec_ok in Hok. apply andb_true_iff in Hok. destruct Hok as [Hh Hf].
   pose proof Hh as Hh0.
   unfold header_ok in Hh.
@@ -180,6 +365,12 @@ Proof.
   destruct (lookup_last (t_tag_written tb T) (t_dispatch tb)) as [T'|] eqn:Hd; [|discriminate].
   apply dkind_eqb_eq in Hh. subst T'.
   match goal with H : String.eqb (t_tag_written tb T) (t_tag_guard tb T) = true |- _ => rewrite H end.
+  assert (R : forallb (fun kv : string * dval => dval_readable (snd kv)) (p_data (via conv (to_dict tb d))) = true).
+  { simpl. rewrite Hk. apply forallb_forall. intros [k v] Hin.
+    apply in_map_iff in Hin. destruct Hin as [[k0 v0] [E Hin]]. simpl in E. inversion E; subst k v; clear E.
+    apply in_map_iff in Hin. destruct Hin as [[[k1 f1] e1] [E Hin]]. inversion E; subst k0 v0; clear E.
+    simpl. apply Hread. apply HP. }
+  rewrite R. simpl andb.
   eexists. split; [reflexivity|].
   unfold same_detector_on. simpl d_kind. split; [symmetry; exact Hk|]. split.
   - (* properties *)
@@ -210,7 +401,8 @@ Proof.
 Qed.
 
 Definition strict_dict (T : dkind) (f : field) (o : option payload) : Prop := wf_shape T f o /\ restr_dict f o.
-Definition strict_file (T : dkind) (f : field) (o : option payload) : Prop := wf_shape T f o /\ restr_file f o.
+Definition strict_file (tb : tables) (T : dkind) (f : field) (o : option payload) : Prop :=
+  wf_shape T f o /\ restr_file tb f o.
 
 Lemma wf_shape_not_applicable T f o : applicable T f = false -> wf_shape T f o -> o = None.
 Proof. destruct o; simpl; [|reflexivity]. intros A [B _]. congruence. Qed.
@@ -223,24 +415,64 @@ Proof.
   - intros f ew er o A [Hs Hr] He.
     apply andb_true_iff in Hok. destruct Hok as [Hh _].
     eapply dec_enc_dict; eauto.
+  - intros f ew o [Hs Hr]. eapply enc_readable_dict; eauto.
   - intros f o A [Hs _]. eapply wf_shape_not_applicable; eauto.
 Qed.
 
 (* file route: from_dict (from_asdf (to_asdf (to_dict d))) = d on the containers `fs` *)
 Theorem codec_sound_file tb T fs :
-  codec_ok tb T fs = true -> roundtrip_on via_file strict_file tb T fs.
+  codec_ok tb T fs = true -> roundtrip_on (via_file tb) (strict_file tb) tb T fs.
 Proof.
   intros Hok. apply codec_sound_gen; auto.
   - intros f ew er o A [Hs Hr] He.
     apply andb_true_iff in Hok. destruct Hok as [Hh _].
     eapply dec_enc_file; eauto.
+  - intros f ew o [Hs [Hr _]]. eapply enc_readable_file; eauto.
   - intros f o A [Hs _]. eapply wf_shape_not_applicable; eauto.
 Qed.
 
 (* every subset of initialised containers is covered: the hypothesis of roundtrip_on is satisfied by the
    detector with NO container initialised and is independent for each container *)
-Lemma strict_none T f : strict_file T f None.
+Lemma strict_none tb T f : strict_file tb T f None.
 Proof. repeat split. Qed.
+
+(* once the backend keeps the row labels, the file route needs nothing beyond the dictionary route *)
+Theorem codec_sound_file_kept tb T fs :
+  t_frame_index_kept tb = true ->
+  codec_ok tb T fs = true -> roundtrip_on (via_file tb) strict_dict tb T fs.
+Proof.
+  intros Hk Hok d Hd HP.
+  apply (codec_sound_file tb T fs Hok d Hd).
+  intros f. destruct (HP f) as [Hs Hr]. split; [exact Hs|]. split; [exact Hr|].
+  destruct (d_cont d f) as [[?|?|? ?]|]; auto.
+Qed.
+
+(* save_detector; ...; load_detector: the later models see the saved containers *)
+Theorem load_sees_saved tb T fs :
+  t_frame_index_kept tb = true -> codec_ok tb T fs = true ->
+  (forall f, existsb (field_eqb f) (t_load_assigned tb) = true) ->
+  forall d running, d_kind d = T -> (forall f, strict_dict T f (d_cont d f)) ->
+  exists loaded, from_dict tb (via_file tb (to_dict tb d)) = Some loaded /\
+                 forall f, In f fs -> d_cont (load_detector_effect tb running loaded) f = d_cont d f.
+Proof.
+  intros Hk Hok Hall d running Hd HP.
+  destruct (codec_sound_file_kept tb T fs Hk Hok d Hd HP) as [l [E [_ [_ Q]]]].
+  exists l. split; [exact E|]. intros f Hin. simpl. rewrite (Hall f). apply Q; exact Hin.
+Qed.
+
+Theorem load_sees_saved_all tb T :
+  t_frame_index_kept tb = true -> codec_ok tb T all_fields = true ->
+  forallb (fun f => existsb (field_eqb f) (t_load_assigned tb)) all_fields = true ->
+  forall d running, d_kind d = T -> (forall f, strict_dict T f (d_cont d f)) ->
+  exists loaded, from_dict tb (via_file tb (to_dict tb d)) = Some loaded /\
+                 forall f, d_cont (load_detector_effect tb running loaded) f = d_cont d f.
+Proof.
+  intros Hk Hok Hall d running Hd HP.
+  assert (Hall' : forall f, existsb (field_eqb f) (t_load_assigned tb) = true).
+  { intros f. rewrite forallb_forall in Hall. apply Hall. destruct f; simpl; auto 10. }
+  destruct (load_sees_saved tb T all_fields Hk Hok Hall' d running Hd HP) as [l [E Q]].
+  exists l. split; [exact E|]. intros f. apply Q. destruct f; simpl; auto 10.
+Qed.
 
 (* ---------------------------------------------------------------- load_detector *)
 Theorem load_replaces_iff tb :
